@@ -24,6 +24,12 @@ sys.path.insert(0, HERE)
 import rustfun  # noqa: E402
 
 TIE_FILES = ["SrcFunTie.v", "SrcFunTie2.v"]
+# ADVISORY lemmas: the function is a PRIVATE CONVENTION that may legitimately be re-chosen together with its callers
+# (nothing in the file format, the public API or the specification fixes it).  When such a lemma stops proving --
+# differing input or not -- nothing alarms: the function falls back to its pinned text for this run and the evidence
+# records `srcfun_tie_advisory_differs`.  Every other lemma is BINDING.  (tools/FRAMEWORK.md lists the classification.)
+ADVISORY = {"tie_Slot_partial_cmp", "tie_Slot_cmp", "tie_Slot_cmp_leb",
+            "tie_Bound_exceeded_by", "tie_Bound_is_empty", "tie_Bound_is_inclusive"}
 CONSTS = {"P64": 1 << 64, "P56": 1 << 56, "P32": 1 << 32}
 BUDGET = 250000
 NRANDOM = 4000
@@ -515,7 +521,7 @@ def run(repo, root, log, tag=None):
     coq = os.path.join(root, "coq")
     out_v = os.path.join(coq, "Generated", "SrcFuns.v")
     tie_files = [os.path.join(coq, f) for f in TIE_FILES if os.path.exists(os.path.join(coq, f))]
-    res = {"not_comparable": [], "translated": [], "tied_by_proof": [], "fallback_to_pinned": [], "unproved_no_difference": [], "broken": [],
+    res = {"advisory_differs": [], "not_comparable": [], "translated": [], "tied_by_proof": [], "fallback_to_pinned": [], "unproved_no_difference": [], "broken": [],
            "untranslatable": {}, "rounds": 0, "ok": True, "detail": ""}
     pinned, _ = rustfun.split_pinned(open(rustfun.PINNED_PATH).read())
     use_pinned = {}
@@ -541,7 +547,7 @@ def run(repo, root, log, tag=None):
         pass
     if cached:
         use_pinned = dict(cached["use_pinned"])
-        for k in ("unproved_no_difference", "broken", "not_comparable"):
+        for k in ("unproved_no_difference", "broken", "not_comparable", "advisory_differs"):
             res[k] = cached["res"].get(k, [])
         res["reused_decisions"] = True
     for rnd in range(12):
@@ -605,6 +611,15 @@ def run(repo, root, log, tag=None):
                 use_pinned[f] = "signature changed (representation of the data); tie lemma %s not applicable" % lem["name"]
             continue
         s = run_sample(root, lem["preamble"], lem, tag, log)
+        if lem["name"] in ADVISORY:
+            if s.get("found") is not None and not s.get("error"):
+                res["advisory_differs"].append({"lemma": lem["name"], "file": lem["file"], "functions": blame, "input": s["found"],
+                                                "src_value": s["src_value"], "model_value": s["model_value"]})
+            else:
+                res["unproved_no_difference"] += [f for f in blame if f not in res["unproved_no_difference"]]
+            for f in blame:
+                use_pinned[f] = "advisory tie lemma %s does not hold for the current translation (a private convention)" % lem["name"]
+            continue
         if s.get("error"):
             # the two sides cannot be evaluated against each other (a changed signature or type, e.g. an enum turned
             # into a struct): nothing to compare, no alarm; the differential run still compares model and code
@@ -626,7 +641,7 @@ def run(repo, root, log, tag=None):
     res["seconds"] = round(time.time() - t_start, 2)
     if res["ok"] and not cached:
         try:
-            json.dump({"key": key, "use_pinned": use_pinned, "res": {k: res[k] for k in ("unproved_no_difference", "broken", "not_comparable")}}, open(cache_path, "w"))
+            json.dump({"key": key, "use_pinned": use_pinned, "res": {k: res[k] for k in ("unproved_no_difference", "broken", "not_comparable", "advisory_differs")}}, open(cache_path, "w"))
         except OSError:
             pass
     return res
